@@ -56,6 +56,60 @@ theorem requested_location_column_is_fresh (segs : Frame α) (loc spread interva
     split <;> split <;> simp [e1, e2, e3, e4, hsp, hlc]
   rw [key]
 
+/-- a requested spread statistic is in the column of its name, freshly computed (spread statistics are assigned
+    after the location statistics, so a location statistic of the same name would not survive either) -/
+theorem requested_spread_column_is_fresh (segs : Frame α) (loc spread interval : List String)
+    (locVal spreadVal : String → α) (ciLo ciHi piLo piHi : α) (nm : String)
+    (h : nm ∈ spread) (hi : nm ∉ ["ci_lo", "ci_hi", "pi_lo", "pi_hi"]) :
+    (segmetricsFrame segs loc spread interval locVal spreadVal ciLo ciHi piLo piHi).get? nm = some (spreadVal nm) := by
+  unfold segmetricsFrame
+  rw [Frame.get?_assignAll]
+  have key : (segmetricsAssigns loc spread interval locVal spreadVal ciLo ciHi piLo piHi).reverse.find?
+      (fun a => a.1 == nm) = some (nm, spreadVal nm) := by
+    simp only [List.mem_cons, List.not_mem_nil, or_false, not_or] at hi
+    obtain ⟨h1, h2, h3, h4⟩ := hi
+    have e1 : ("ci_lo" == nm) = false := by simpa using Ne.symm h1
+    have e2 : ("ci_hi" == nm) = false := by simpa using Ne.symm h2
+    have e3 : ("pi_lo" == nm) = false := by simpa using Ne.symm h3
+    have e4 : ("pi_hi" == nm) = false := by simpa using Ne.symm h4
+    have hsp : (spread.map (fun x => (x, spreadVal x))).reverse.find? (fun a => a.1 == nm) = some (nm, spreadVal nm) := by
+      obtain ⟨a, ha⟩ : ∃ a, (spread.map (fun x => (x, spreadVal x))).reverse.find? (fun a => a.1 == nm) = some a := by
+        rw [← Option.isSome_iff_exists, List.find?_isSome]
+        exact ⟨(nm, spreadVal nm), by simpa using h, by simp⟩
+      have hm := List.mem_of_find?_eq_some ha
+      have hp := List.find?_some ha
+      simp only [List.mem_reverse, List.mem_map] at hm
+      obtain ⟨y, _, rfl⟩ := hm
+      have : y = nm := by simpa using hp
+      rw [ha, this]
+    unfold segmetricsAssigns
+    simp only [List.reverse_append, List.find?_append]
+    split <;> split <;> simp [e1, e2, e3, e4, hsp]
+  rw [key]
+
+/-- the interval columns hold the interval just computed iff their statistic is among `interval_stats`, in whatever
+    order (or how often) it was named, and whatever the location / spread statistics were called -/
+theorem requested_interval_columns_are_fresh (segs : Frame α) (loc spread interval : List String)
+    (locVal spreadVal : String → α) (ciLo ciHi piLo piHi : α) :
+    let out := segmetricsFrame segs loc spread interval locVal spreadVal ciLo ciHi piLo piHi
+    ("ci" ∈ interval → out.get? "ci_lo" = some ciLo ∧ out.get? "ci_hi" = some ciHi) ∧
+    ("pi" ∈ interval → out.get? "pi_lo" = some piLo ∧ out.get? "pi_hi" = some piHi) := by
+  intro out
+  constructor
+  · intro hc
+    constructor <;>
+    · show (segs.assignAll _).get? _ = _
+      rw [Frame.get?_assignAll]
+      unfold segmetricsAssigns
+      by_cases hp : "pi" ∈ interval <;>
+        simp [hc, hp]
+  · intro hp
+    constructor <;>
+    · show (segs.assignAll _).get? _ = _
+      rw [Frame.get?_assignAll]
+      unfold segmetricsAssigns
+      simp [hp]
+
 /-- a column of the segment table that no requested statistic is named after comes back with what it held -/
 theorem unrequested_column_unchanged (segs : Frame α) (loc spread interval : List String)
     (locVal spreadVal : String → α) (ciLo ciHi piLo piHi : α) (nm : String)
